@@ -7,6 +7,7 @@ parses); every matcher is re-checked at the end of the run against the same node
 """
 from __future__ import annotations
 
+import copy
 import re
 from typing import Any
 
@@ -574,6 +575,27 @@ class Gen:
         cands = [f for f in U.FIELDS[cls] if f.kind != "prop" or f.vt in ("str", "int", "optint", "op")]
         r.shuffle(cands)
         kids = [f for f in U.CHILD_FIELDS[cls] if f.kind in ("opt", "child") and is_node(getattr(x, f.name))]
+        tkids = [f for f in kids if any(g.kind == "tuple" for g in U.CHILD_FIELDS[RW.cname(getattr(x, f.name))])]
+        if len(tkids) >= 2 and r.random() < 0.35:
+            # $var bound to a TUPLE (a whole child-sequence field, or the rest of one): compared with ==, which for
+            # the nodes inside means equal content AND equal origin
+            a, b = r.sample(tkids, 2)
+            cap = self.newcap()
+            caps.append(cap)
+            fa = r.choice([g for g in U.CHILD_FIELDS[RW.cname(getattr(x, a.name))] if g.kind == "tuple"]).name
+            fb = r.choice([g for g in U.CHILD_FIELDS[RW.cname(getattr(x, b.name))] if g.kind == "tuple"]).name
+            if r.random() < 0.6:
+                first = [fa, {"k": "exists", "cap": cap}]
+            else:
+                first = [fa, {"k": "val", "v": {"t": "seq", "elems": [], "tail": True, "tailcap": cap}}]
+            self.w.stats.probes["var_bound_to_tuple"] += 1
+            return {
+                "cls": clsspec,
+                "fields": [
+                    [a.name, {"k": "val", "v": {"t": "node", "p": {"cls": "*", "fields": [first]}}}],
+                    [b.name, {"k": "val", "v": {"t": "node", "p": {"cls": "*", "fields": [[fb, {"k": "val", "v": {"t": "var", "name": cap}}]]}}}],
+                ],
+            }
         if len(kids) >= 2 and depth >= 1 and r.random() < 0.3:
             # $var semantics across nesting: capture one child, require a content-equal node somewhere inside a sibling
             a, b = r.sample(kids, 2)
@@ -650,9 +672,12 @@ class Gen:
                 base = self.rwg.spec(0)
                 if "ref" in base:
                     continue
+            if r.random() < 0.3:
+                # a sequence holder: its twin holds content-equal elements with other origins, its copy ==-equal ones
+                base = {"c": r.choice(["Seq", "SeqPlus"]), "p": {}, "ch": {"items": [self.rwg.spec(0, "leaf") for _ in range(r.choice([1, 2]))]}, "o": "no"}
             others = [k for k in U.ORIGIN_KEYS if k != base.get("o")]
             twin = _reorigin(base, r.choice(others))
-            near = self.rwg.mutate(base)
+            near = self.rwg.mutate(base) if r.random() < 0.6 else copy.deepcopy(base)
             if r.random() < 0.5:
                 spec = {"c": "Pair", "p": {}, "ch": {"left": base, "lhs": twin, "right": near}, "o": "no"}
             else:
